@@ -135,6 +135,66 @@ theorem parse_emitted_request (j : OutMsg) (hm : j.m ≠ [])
     simp [h1, h2, parseObject, lookupLast, scanString, scanID, scanParams, scanError, postChecks, hv, hmth,
       k1, k2, k3, k4, k5, k6, k7, k8, k9, k10, k11, k12, k13, k14, m1, m2, m3, m4, Ne.symm, hmne, hnn, hfb, hid'.2]
 
+theorem resultLit_eq : resultLit = 44 :: (quote kResult ++ [58]) := by decide
+
+/-- the members a successful response is emitted with -/
+def resultMembers (j : OutMsg) : List (Bytes × Bytes) :=
+  [(quote kJsonrpc, quote version), (quote kId, j.id), (quote kResult, j.r)]
+
+theorem toJSON_result (j : OutMsg) (hm : j.m = []) (hid : j.id ≠ []) (hr : j.r ≠ []) :
+    toJSON j = objText (resultMembers j) := by
+  unfold toJSON resultMembers objText
+  simp [hm, hid, hr, prefixLit_eq, idLit_eq, resultLit_eq, objBody]
+
+theorem memberView_result (j : OutMsg) (hm : j.m = []) (hid : j.id ≠ []) (hr : j.r ≠ [])
+    (pid : Part j.id) (pr : Part j.r) :
+    memberView (toJSON j) = .object [(kJsonrpc, quote version), (kId, j.id), (kResult, j.r)] := by
+  have hmem : members (toJSON j) = some (resultMembers j) := by
+    rw [toJSON_result j hm hid hr]
+    apply members_objText
+    · simp [resultMembers]
+    · intro kv hkv
+      simp only [resultMembers, List.mem_cons, List.mem_nil_iff, or_false] at hkv
+      rcases hkv with h | h | h <;> subst h
+      · exact good_quoted _ _
+      · exact good_part _ _ pid
+      · exact good_part _ _ pr
+  have h123 : ∃ r, toJSON j = 123 :: r := by
+    rw [toJSON_result j hm hid hr]; exact ⟨_, rfl⟩
+  obtain ⟨r, hr'⟩ := h123
+  unfold memberView
+  rw [hr'] at hmem ⊢
+  simp only [hmem]
+  simp [resultMembers, unquote_quote]
+
+/-- **an emitted successful response parses back to the same id and result, with no error** -/
+theorem parse_emitted_result (j : OutMsg) (hm : j.m = []) (hid : j.id ≠ []) (hr : j.r ≠ [])
+    (pid : Part j.id) (hvid : isValidID j.id = true) (pr : Part j.r) :
+    parseMember (memberView (toJSON j)) =
+      { v := version, id := j.id, m := [], p := [], hasE := false, r := j.r, extra := false, errs := [] } := by
+  rw [memberView_result j hm hid hr pid pr]
+  have k1 : kJsonrpc ≠ kId := by decide
+  have k2 : kJsonrpc ≠ kMethod := by decide
+  have k3 : kJsonrpc ≠ kParams := by decide
+  have k4 : kId ≠ kMethod := by decide
+  have k5 : kId ≠ kParams := by decide
+  have k7 : kJsonrpc ≠ kError := by decide
+  have k8 : kId ≠ kError := by decide
+  have k11 : kJsonrpc ≠ kResult := by decide
+  have k12 : kId ≠ kResult := by decide
+  have k13 : kResult ≠ kMethod := by decide
+  have k14 : kResult ≠ kParams := by decide
+  have k15 : kResult ≠ kError := by decide
+  have m1 : kJsonrpc ∈ knownKeys := by decide
+  have m2 : kId ∈ knownKeys := by decide
+  have m3 : kResult ∈ knownKeys := by decide
+  have hv : decodeString (quote version) = some version := by
+    simp [decodeString, isNull_quote, unquote_quote]
+  unfold parseMember
+  simp [parseObject, lookupLast, scanString, scanID, scanParams, scanError, postChecks, hv,
+    k1, k2, k3, k4, k5, k7, k8, k11, k12, k13, k14, k15, m1, m2, m3, Ne.symm, hvid]
+
+
 /-- executable test for `Part` -/
 def partB (v : Bytes) : Bool :=
   (match v with | b :: _ => !isSpace b | [] => false) &&
